@@ -368,20 +368,22 @@ pub fn exec_once(c: &Case) -> CaseResult {
 }
 
 pub fn exec_confirmed(c: &Case) -> (CaseResult, u32) {
-    let mut r = exec_once(c);
-    let mut reruns = 0;
-    while let Some(f) = &r.fail {
-        if !f.soft || reruns >= 2 || rt::failed_already() {
-            break;
-        }
-        reruns += 1;
-        let r2 = exec_once(c);
-        if r2.fail.is_none() {
-            return (r2, reruns);
-        }
-        r = r2;
+    // A failure decided by a deadline is reported when it shows in at least two of three executions on fresh clusters
+    // (the first one and one of two re-runs): a one-off deadline miss of the machine is not reported, a defect that
+    // depends on the implementation's own randomness (one flow in twenty) still is.
+    let r = exec_once(c);
+    let Some(f) = &r.fail else { return (r, 0) };
+    if !f.soft || rt::failed_already() {
+        return (r, 0);
     }
-    (r, reruns)
+    let mut last = exec_once(c);
+    if last.fail.is_none() {
+        last = exec_once(c);
+    }
+    if last.fail.is_none() {
+        last.labels.push("deadline-miss-not-confirmed".into());
+    }
+    (last, 2)
 }
 
 pub struct Datagrams;
@@ -400,9 +402,6 @@ impl SubCheck for Datagrams {
         out.weight = r.datagrams.max(1);
         for l in r.labels {
             out.label(l);
-        }
-        if reruns > 0 && r.fail.is_none() {
-            out.label("deadline-miss-not-confirmed");
         }
         if r.nontrivial {
             let shape: Vec<String> = c.sends.iter().map(|s| format!("{}>{}:{}", s.app, s.target, crate::gen::size_class(s.size as usize))).collect();
